@@ -74,8 +74,8 @@ Definition shipped_rules : list rule := [
 {| r_group := "assignOp"; r_patterns := ["$x = $x >> $y"]; r_where := "m[""x""].Pure"; r_suggest := ""; r_report := "replace `$$` with `$x >>= $y`" |};
 {| r_group := "assignOp"; r_patterns := ["$x = $x &^ $y"]; r_where := "m[""x""].Pure"; r_suggest := ""; r_report := "replace `$$` with `$x &^= $y`" |};
 {| r_group := "offBy1"; r_patterns := ["$x[len($x)]"]; r_where := "m[""x""].Pure && m[""x""].Type.Is(`[]$_`)"; r_suggest := "$x[len($x)-1]"; r_report := "index expr always panics; maybe you wanted $x[len($x)-1]?" |};
-{| r_group := "offBy1"; r_patterns := ["$i := strings.Index($s, $_); $_ := $slicing[$i:]"; "$i := strings.Index($s, $_); $_ = $slicing[$i:]"; "$i := bytes.Index($s, $_); $_ := $slicing[$i:]"; "$i := bytes.Index($s, $_); $_ = $slicing[$i:]"]; r_where := "m[""s""].Text == m[""slicing""].Text"; r_suggest := ""; r_report := "Index() can return -1; maybe you wanted to do $s[$i+1:]" |};
-{| r_group := "offBy1"; r_patterns := ["$i := strings.Index($s, $_); $_ := $slicing[:$i]"; "$i := strings.Index($s, $_); $_ = $slicing[:$i]"; "$i := bytes.Index($s, $_); $_ := $slicing[:$i]"; "$i := bytes.Index($s, $_); $_ = $slicing[:$i]"]; r_where := "m[""s""].Text == m[""slicing""].Text"; r_suggest := ""; r_report := "Index() can return -1; maybe you wanted to do $s[:$i+1]" |};
+{| r_group := "offBy1"; r_patterns := ["$i := strings.Index($s, $_); $_ := $slicing[$i:]"; "$i := strings.Index($s, $_); $_ = $slicing[$i:]"; "$i := bytes.Index($s, $_); $_ := $slicing[$i:]"; "$i := bytes.Index($s, $_); $_ = $slicing[$i:]"]; r_where := "m[""s""].Text == m[""slicing""].Text @At(m[""slicing""])"; r_suggest := ""; r_report := "Index() can return -1; maybe you wanted to do $s[$i+1:]" |};
+{| r_group := "offBy1"; r_patterns := ["$i := strings.Index($s, $_); $_ := $slicing[:$i]"; "$i := strings.Index($s, $_); $_ = $slicing[:$i]"; "$i := bytes.Index($s, $_); $_ := $slicing[:$i]"; "$i := bytes.Index($s, $_); $_ = $slicing[:$i]"]; r_where := "m[""s""].Text == m[""slicing""].Text @At(m[""slicing""])"; r_suggest := ""; r_report := "Index() can return -1; maybe you wanted to do $s[:$i+1]" |};
 {| r_group := "offBy1"; r_patterns := ["$s[strings.Index($s, $_):]"; "$s[:strings.Index($s, $_)]"; "$s[bytes.Index($s, $_):]"; "$s[:bytes.Index($s, $_)]"]; r_where := ""; r_suggest := ""; r_report := "Index() can return -1; maybe you wanted to do Index()+1" |};
 {| r_group := "unslice"; r_patterns := ["$s[:]"]; r_where := "m[""s""].Type.Is(`string`) || m[""s""].Type.Is(`[]$_`)"; r_suggest := "$s"; r_report := "could simplify $$ to $s" |};
 {| r_group := "yodaStyleExpr"; r_patterns := ["$constval != $x"]; r_where := "m[""constval""].Node.Is(`BasicLit`) && !m[""x""].Node.Is(`BasicLit`)"; r_suggest := ""; r_report := "consider to change order in expression to $x != $constval" |};
@@ -216,4 +216,27 @@ Definition unlambda_flags (c : callee) : bool :=
   | CFuncVar _ => false
   | CFuncField _ _ _ => false
   | CMethod _ ptr _ => negb ptr
+  end.
+
+(* The same table as the precompiled IR spells it (what the binary executes): identical except that the
+   precompiler records the filter source with rules.go's local helper functions inlined; [ir_view] maps a
+   source-level entry to its IR spelling. *)
+Definition ir_where_of (w : string) : string := w.
+Definition ir_view (r : rule) : rule :=
+  {| r_group := r_group r; r_patterns := r_patterns r; r_where := ir_where_of (r_where r); r_suggest := r_suggest r;
+     (* a rule with Suggest and no Report gets the report template "suggestion: <suggest>" *)
+     r_report := match r_report r with EmptyString => "suggestion: " ++ r_suggest r | t => t end |}.
+
+(* ---------- redundantSprint: fmt.Sprint($x) / Sprintf("%s"|"%v", $x) => $x.String() for a fmt.Stringer ----------
+   What fmt prints for %v / %s (fmt/print.go handleMethods): a Formatter formats itself; otherwise an error
+   prints Error(); otherwise a Stringer prints String(); otherwise the raw value.  An operand is described by
+   the results of the methods it has. *)
+Record fmt_operand := { fo_raw : string; fo_format : option string; fo_error : option string; fo_string : option string }.
+Definition fmt_sprint (o : fmt_operand) : string :=
+  match fo_format o with
+  | Some f => f
+  | None => match fo_error o with
+            | Some e => e
+            | None => match fo_string o with Some s => s | None => fo_raw o end
+            end
   end.
